@@ -14,7 +14,7 @@ let iz = int_of_z
 let ints_of_csv s = List.filter_map (fun t -> match int_of_string_opt t with Some i when i >= 1 && i <= 250 -> Some i | _ -> None) (split_on ',' s)
 
 let is_event u =
-  u = "q" || u = "a" || u = "s" || u = "r" || u = "i" || u = "x" || u = "c"
+  u = "q" || u = "a" || u = "s" || u = "r" || u = "i" || u = "x" || u = "c" || u = "k"
   || (String.length u >= 2 && u.[0] = 'w' && u.[1] >= '0' && u.[1] <= '9')
   || (String.length u >= 1 && u.[0] = 'e')
 
@@ -24,6 +24,7 @@ let render_obs = function
   | OTx (l, a, _) -> Printf.sprintf "T%d@%d" (int_of_nat l) (iz a)
   | ODone (l, s) -> Printf.sprintf "D%d=%d" (int_of_nat l) (iz s)
   | OServers _ -> "E"
+  | OConnLost (a, _) -> Printf.sprintf "L%d" (iz a)
 
 let render_table (l : server list) =
   if l = [] then "-" else
@@ -69,6 +70,7 @@ let () =
        let ch = ref (init_chan (List.map zi sv) rot (zi tries) (zi chance) (zi delay) (zi 100000, zi 0)) in
        let mon = ref (Some (mon_init (List.map zi sv) rot)) in
        let bmon = ref (Some (bmon_init (List.map zi sv) (zi tries))) in
+       let dmon = ref (Some None) in
        let sections l = match List.map String.trim (split_on '|' l) with
          | [_; r; t] -> (List.filter (fun s -> s <> "") (split_on ' ' r), t)
          | _ -> ([], "?") in
@@ -148,6 +150,12 @@ let () =
                  | Some (c, o) -> Some (c, o, [])
                  | None -> (match in_order labels with Some (c, o) -> Some (c, o, []) | None -> None))
               | _ -> None)
+           | "k" ->
+             (match !ch.ch_inflight with
+              | [] -> Some (!ch, [], ["-"])
+              | a :: _ ->
+                let cs = List.map (fun x -> { c_rot = zi x; c_probe = zi 0 }) r1s in
+                (match step !ch (EvConnLost (a.at_server, cs)) with Ok (c, o) -> Some (c, o, []) | _ -> None))
            | "c" -> (match apply !ch EvCancel with Some (c, o) -> Some (c, o, []) | None -> None)
            | _ when u.[0] = 'w' ->
              if !ch.ch_inflight <> [] then Some (!ch, [], ["skip"]) else
@@ -193,6 +201,7 @@ let () =
                (match split_on '=' (String.sub r 1 (String.length r - 1)) with
                 | [l; s] -> Some (ODone (nat_of_int (int_of_string l), zi (int_of_string s)))
                 | _ -> None)
+             else if starts_with "L" r then Some (OConnLost (zi (int_of_string (String.sub r 1 (String.length r - 1))), true))
              else if r = "E" then Some (OServers (List.map zi (ints_of_csv (String.sub u 1 (String.length u - 1)))))
              else None
            with _ -> None) vis in
@@ -207,6 +216,21 @@ let () =
                   (Printf.sprintf "event %s: %s rejected; failures by callbacks [%s]" u (render_obs ob)
                      (String.concat "," (List.map (fun s -> Printf.sprintf "%d:%d:%s" (iz s.sv_addr) (iz s.sv_idx) (string_of_z s.sv_fail)) m.m_servers)));
                 mon := None)) iobs;
+         (* third monitor: a lost connection with queries outstanding demotes the server at once *)
+         List.iter (fun ob ->
+           match !dmon with
+           | None -> ()
+           | Some d ->
+             (match dmon_step d ob with
+              | Some d' -> dmon := Some d'
+              | None ->
+                add_fail "not-demoted"
+                  (Printf.sprintf "event %s: connection to server %s lost with queries outstanding, but the next observation is %s instead of its failure callback"
+                     u (match d with Some a -> string_of_z a | None -> "?") (render_obs ob));
+                dmon := None)) iobs;
+         (match !dmon with
+          | Some (Some a) -> add_fail "not-demoted" (Printf.sprintf "event %s: connection to server %s lost with queries outstanding and no failure callback followed" u (string_of_z a)); dmon := None
+          | _ -> ());
          (* second monitor: an attempt that is due is made *)
          List.iter (fun ob ->
            match !bmon with
